@@ -77,7 +77,7 @@ def digests(paths):
 # running
 # ---------------------------------------------------------------------------
 
-def start_traced(job, job_dir, tag):
+def start_traced(job, job_dir, tag, tmpdir=None):
     """start stage_runner under strace; returns a handle for finish()"""
     job_dir = pathlib.Path(job_dir)
     job_path = job_dir / ('job_%s.json' % tag)
@@ -90,6 +90,10 @@ def start_traced(job, job_dir, tag):
     env.setdefault('OMP_NUM_THREADS', '1')
     env.setdefault('OPENBLAS_NUM_THREADS', '1')
     env['PYTHONDONTWRITEBYTECODE'] = '1'
+    if tmpdir is not None:
+        # what tempfile.gettempdir() answers inside the stage: a private,
+        # watched stand-in for the system temp directory
+        env['TMPDIR'] = str(tmpdir)
     # --seccomp-bpf: the tracer is woken only by the traced calls (3x faster)
     cmd = ['strace', '-f', '--seccomp-bpf', '-y', '-s', '4096',
            '-o', str(trace_path),
@@ -117,11 +121,11 @@ def finish_traced(h, timeout=300):
     return status, h['trace'].read_text(errors='replace')
 
 
-def run_traced(job, job_dir, tag='0', timeout=300):
-    return finish_traced(start_traced(job, job_dir, tag), timeout)
+def run_traced(job, job_dir, tag='0', timeout=300, tmpdir=None):
+    return finish_traced(start_traced(job, job_dir, tag, tmpdir), timeout)
 
 
-def run_plain(job, job_dir, tag='p', timeout=300):
+def run_plain(job, job_dir, tag='p', timeout=300, tmpdir=None):
     """the same stage without strace (for result comparisons)"""
     job_dir = pathlib.Path(job_dir)
     job_path = job_dir / ('job_%s.json' % tag)
@@ -131,6 +135,8 @@ def run_plain(job, job_dir, tag='p', timeout=300):
     job_path.write_text(json.dumps(job))
     env = dict(os.environ)
     env['PYTHONDONTWRITEBYTECODE'] = '1'
+    if tmpdir is not None:
+        env['TMPDIR'] = str(tmpdir)
     p = subprocess.run([sys.executable, str(RUNNER), str(job_path)],
                        env=env, stdout=subprocess.PIPE,
                        stderr=subprocess.STDOUT, text=True, cwd=str(job_dir),
